@@ -18,6 +18,16 @@ Theorem C01_oracle_sound :
     concat files = (match start with Some s => s | None => [] end) ++ recs_of its.
 Proof. intros start its files H. apply BytesFacts.beq_eq. exact H. Qed.
 
+Require Import FL.Flw.NumDInv FL.Flw.NumDRun FL.Flw.NumDTheorems.
+(* the same for NumbersDirect naming (no rCURRENT: r00000, r00001, ... are written directly) *)
+Theorem C01_stream_numbersdirect c crit t0 off ops :
+  numdcfg c crit -> Forall basic_op ops ->
+  exists files, direct_view c (wfs (s_w (fst (run (sys0 t0 off) (OStart c :: ops ++ [OStop]))))) files
+    /\ concat files = written ops.
+Proof. exact (numbersdirect_stream c crit t0 off ops). Qed.
+
 Check C01_stream_numbers.
 Print Assumptions C01_stream_numbers.
 Print Assumptions C01_oracle_sound.
+Check C01_stream_numbersdirect.
+Print Assumptions C01_stream_numbersdirect.
